@@ -14,7 +14,7 @@ use wire::*;
 use wtransport::endpoint::ConnectOptions;
 use wtransport::error::ConnectingError;
 
-pub const RULE: &str = "case = runtime flavour x URL from normal-form components (host in {127.0.0.1, [::1], generated domains and punycode labels resolved by a harness DnsResolver}, default or explicit port, 0..6 path segments over unreserved / sub-delims / pct-encoded characters, optional query, optional fragment) x 0..12 additional header fields (names: QPACK static-table names and generated tokens with lengths across the 3-bit prefix boundary; values: static-table exact values, visible ASCII with inner SP/HTAB, non-ASCII UTF-8, Huffman-shrinking and non-shrinking strings, lengths 0..2000, whole section < 4096 bytes) x server decision in {accept, accept_with_headers(extra fields), forbidden, not_found, too_many_requests}; variants: wtransport<->wtransport, raw server answering generated 2xx / non-2xx statuses with extra fields, raw client encoding the request with the reference QPACK encoder under generated representation choices; per-stream receive window of both endpoints in {default, 32..300 bytes, but at least 1/30 of the field section} (HEADERS frames written and read across flow-control boundaries). Oracle: the server application sees exactly authority (port elided iff 443), path-with-query, the five fixed pseudo-fields and every additional field, nothing else; connect is Ok iff accepted, SessionRejected iff non-2xx; both ends report the session id of the CONNECT stream. Non-trivial: >= 1 additional header or non-root path or a rejecting decision; distinct = distinct case";
+pub const RULE: &str = "case = runtime flavour x URL from normal-form components (host in {127.0.0.1, [::1], generated domains and punycode labels resolved by a harness DnsResolver}, default or explicit port, 0..6 path segments over unreserved / sub-delims / pct-encoded characters, optional query, optional fragment) x 0..12 additional header fields (names: QPACK static-table names and generated tokens with lengths across the 3-bit prefix boundary; values: static-table exact values, visible ASCII with inner SP/HTAB, non-ASCII UTF-8, Huffman-shrinking and non-shrinking strings, lengths 0..2000, whole section < 4096 bytes) x the way the request is handed to connect (ConnectOptions built, the ConnectRequestBuilder itself, the bare URL) x server decision in {accept, accept_with_headers(extra fields), forbidden, not_found, too_many_requests}; variants: wtransport<->wtransport, raw server answering generated 2xx / non-2xx statuses with extra fields, raw client encoding the request with the reference QPACK encoder under generated representation choices; per-stream receive window of both endpoints in {default, 32..300 bytes, but at least 1/30 of the field section} (HEADERS frames written and read across flow-control boundaries). Oracle: the server application sees exactly authority (port elided iff 443), path-with-query, the five fixed pseudo-fields and every additional field, nothing else; connect is Ok iff accepted, SessionRejected iff non-2xx; both ends report the session id of the CONNECT stream. Non-trivial: >= 1 additional header or non-root path or a rejecting decision; distinct = distinct case";
 
 #[derive(Clone, Debug, Serialize, Deserialize, PartialEq)]
 pub enum Decision {
@@ -48,6 +48,38 @@ pub struct Case {
     /// (partial writes on the sending side, many small reads on the receiving side).
     #[serde(default)]
     pub window: u16,
+}
+
+/// Which of the documented ways of handing the request to `connect` the case uses (derived from
+/// the case so that old replay files keep their meaning): 0 = `ConnectOptions` built with
+/// `.build()`, 1 = the `ConnectRequestBuilder` itself, 2 = the bare URL (`&str` / `String`) when
+/// there are no additional headers, else the builder itself. All of them implement
+/// `IntoConnectOptions` and must carry the same request.
+pub fn option_path(case: &Case) -> u8 {
+    ((case.headers.len() + case.path.len() + case.flavor as usize) % 3) as u8
+}
+
+async fn connect_via(
+    ep: &wtransport::Endpoint<wtransport::endpoint::endpoint_side::Client>,
+    url: &str,
+    headers: &[(String, String)],
+    how: u8,
+) -> Result<wtransport::Connection, wtransport::error::ConnectingError> {
+    let mut opts = ConnectOptions::builder(url);
+    for (k, v) in headers {
+        opts = opts.add_header(k, v);
+    }
+    match how {
+        0 => ep.connect(opts.build()).await,
+        2 if headers.is_empty() => {
+            if url.len() % 2 == 0 {
+                ep.connect(url).await
+            } else {
+                ep.connect(url.to_string()).await
+            }
+        }
+        _ => ep.connect(opts).await,
+    }
 }
 
 /// Transport tuning for the case's window.
@@ -291,11 +323,7 @@ async fn exec_wt_wt(case: Arc<Case>) -> CaseResult {
         };
         Ok::<_, String>((seen, conn))
     };
-    let mut opts = ConnectOptions::builder(&url);
-    for (k, v) in &case.headers {
-        opts = opts.add_header(k, v);
-    }
-    let connect = client_ep.connect(opts.build());
+    let connect = connect_via(&client_ep, &url, &case.headers, option_path(&case));
     let (s, c) = tokio::join!(serve, connect);
     let (seen, server_conn) = match s {
         Ok(x) => x,
@@ -331,7 +359,15 @@ async fn exec_wt_wt(case: Arc<Case>) -> CaseResult {
         (Err(e), true) => return viol("C02:outcome", format!("connect failed with {e} although the server accepted")),
         (Err(e), false) => return viol("C02:outcome", format!("connect failed with {e} instead of SessionRejected for decision {:?}", case.decision)),
     }
-    CaseResult::Pass { nontrivial: nontrivial(&case), labels: vec!["variant:wt-wt", decision_label(&case.decision), host_label(&case)] }
+    CaseResult::Pass { nontrivial: nontrivial(&case), labels: vec!["variant:wt-wt", decision_label(&case.decision), host_label(&case), option_label(&case)] }
+}
+
+fn option_label(c: &Case) -> &'static str {
+    match option_path(c) {
+        0 => "options:built",
+        2 if c.headers.is_empty() => "options:bare-url",
+        _ => "options:builder-itself",
+    }
 }
 
 fn decision_label(d: &Decision) -> &'static str {
@@ -372,11 +408,7 @@ async fn exec_raw_server(case: Arc<Case>) -> CaseResult {
         s.respond(&status, &extra).await?;
         Ok::<_, String>(s)
     };
-    let mut opts = ConnectOptions::builder(&url);
-    for (k, v) in &case.headers {
-        opts = opts.add_header(k, v);
-    }
-    let (s, c) = tokio::join!(serve, client_ep.connect(opts.build()));
+    let (s, c) = tokio::join!(serve, connect_via(&client_ep, &url, &case.headers, option_path(&case)));
     let s = match s {
         Ok(s) => s,
         Err(e) => return viol("C02:request-undecodable", format!("the raw server could not read the request for {url:?}: {e}")),
@@ -404,7 +436,7 @@ async fn exec_raw_server(case: Arc<Case>) -> CaseResult {
         (Err(ConnectingError::SessionRejected), false) => {}
         (other, _) => return viol("C02:outcome", format!("status {} with {} extra fields: connect = {:?}", case.status, extra.len(), other.as_ref().map(|_| "Ok").map_err(|e| e.to_string()))),
     }
-    CaseResult::Pass { nontrivial: nontrivial(&case) || !ok2xx, labels: vec!["variant:raw-server", if ok2xx { "status:2xx" } else { "status:non-2xx" }] }
+    CaseResult::Pass { nontrivial: nontrivial(&case) || !ok2xx, labels: vec!["variant:raw-server", if ok2xx { "status:2xx" } else { "status:non-2xx" }, option_label(&case)] }
 }
 
 /// Raw client (reference QPACK encoder, generated representations) against the wtransport server.
